@@ -412,4 +412,52 @@ def setURLStep (ls : List LState) (i : Nat) (rq : SetReq) (f : Fetch) : List LSt
     | .ok true => (ls1.map fun x => { x with inForce := if x.flt.enabled then x.flt.file else none }, o.res)
     | r => (ls1, r)
 
+/-! ### The asynchronous engine rebuild (`setFilters(…, async = true)` and `updatesLoop`)
+
+Handlers (`set_url`, `add_url`, `remove_url`, `set_rules`, …) do not rebuild
+the engines themselves: `EnableFilters(true)` captures WHICH lists are enabled
+and puts that task into the one-slot channel `filtersInitializerChan`, after
+removing any task still waiting there (lock, drain, enqueue: the latest
+request wins).  `updatesLoop` takes the task and builds the engines from the
+files those lists have THEN. -/
+
+/-- Lists, and the task waiting in `filtersInitializerChan` (the enabled flag
+of every list at the time of the request). -/
+structure BState where
+  ls : List LState
+  pending : Option (List Bool)
+  deriving DecidableEq, Repr
+
+def enabledFlags (ls : List LState) : List Bool := ls.map (·.flt.enabled)
+
+/-- `initFiltering` with the captured list set, on the files of now. -/
+def applySnap : List LState → List Bool → List LState
+  | l :: ls, e :: es => { l with inForce := if e then l.flt.file else none } :: applySnap ls es
+  | ls, _ => ls
+
+/-- `handleFilteringSetURL`: the list is changed at once, the rebuild is only requested. -/
+def setURLAsync (s : BState) (i : Nat) (rq : SetReq) (f : Fetch) : BState × SetRes :=
+  match s.ls[i]? with
+  | none => (s, .err)
+  | some l =>
+    let o := setProps l.flt rq f
+    let ls1 := s.ls.set i { l with flt := o.flt }
+    match o.res with
+    | .ok true => (⟨ls1, some (enabledFlags ls1)⟩, o.res)
+    | r => (⟨ls1, s.pending⟩, r)
+
+/-- Any other handler that ends in `EnableFilters(true)` without touching the
+lists (`set_rules`, a configuration reload). -/
+def enqueue (s : BState) : BState := ⟨s.ls, some (enabledFlags s.ls)⟩
+
+/-- `updatesLoop` takes what is waiting in the channel. -/
+def drain (s : BState) : BState :=
+  match s.pending with
+  | none => s
+  | some snap => ⟨applySnap s.ls snap, none⟩
+
+/-- `tryRefreshFilters` rebuilds synchronously and does not look at the channel. -/
+def refreshB (s : BState) (rq : Req) (ins : List (Bool × Fetch)) : BState :=
+  ⟨refreshStep rq s.ls ins, s.pending⟩
+
 end AGH.C15
